@@ -214,6 +214,18 @@ def effDict (dict : Option (Char → M2 α)) : Char → M2 α :=
 
 @[simp] theorem effDict_some (d : Char → M2 α) : effDict (some d) = d := rfl
 
+/-- the lookup `unitaries[b]` in a Python `dict(str, tensor)` (association list `Unitaries.UDict`, the first entry of a key
+is its value) as a total function of the letter (`rotate_psi` unitaries.py:125, `rotate_rho` :156, `_rotate_basis_state`
+:173). A letter that is not a key (`KeyError` in the code: glue outside the property's quantifier) reads as `dZ`, which is
+what `Unitaries.siteUs` returns on its `ok` path too. -/
+def dictFn (d : Unitaries.UDict α) : Char → M2 α := fun c => (d.lookup c).getD Unitaries.dZ
+
+/-- the `unitary_dict` of a `ComplexWaveFunction` / `DensityMatrix` constructed with
+`unitary_dict=create_dict(**kw)` (complex_wavefunction.py:80, density_matrix.py:80; `Unitaries.createDict`: the user's
+entries override the defaults `X`, `Y`, `Z`), as the letter lookup `KL` / `NLL` perform through `rotate_psi`,
+`rotate_rho_probs`, `rotate_psi_inner_prod`. `userDict []` is the default dictionary. -/
+def userDict (kw : Unitaries.UDict α) : Char → M2 α := dictFn (Unitaries.createDict kw)
+
 /-- `KL` for a `WaveFunctionBase` state.  `dict = none` models a state WITHOUT a `unitary_dict` attribute
 (`PositiveWaveFunction`): `rotate_psi(nn_state, basis, …)` then rotates with the default dictionary (`effDict`). -/
 def klPure (eps : α) (n : Nat) (dict : Option (Char → M2 α)) (psi : (Fin n → Bool) → C α)
